@@ -218,6 +218,11 @@ func (a *SimApp) maybeSubmitFromCallback(b *hg.Block) {
 	if c.cfg.PCommitSubmit <= 0 || n.constructing || n.node == nil || !n.started || n.crashed {
 		return
 	}
+	if c.fairMode {
+		// the fair suffix is about what was accepted before it: clients and
+		// applications stop submitting
+		return
+	}
 	if !c.inner.Bool(c.cfg.PCommitSubmit) {
 		return
 	}
